@@ -337,6 +337,53 @@ def simulate(seed, nstreams, maxrate, amount, think, n_reads, late, abandon_at, 
             'bad_returns': bad_returns, 'closed': closed}
 
 
+def simulate_small_bodies(seed, nstreams, maxrate, threshold, body_len, n_bodies, mode='uniform'):
+    """Downloads of many small objects: every GetObject body is shorter than the limiter's read threshold,
+    is read with read(threshold) until b'' and is never closed (GetObjectTask does not close bodies).
+    Returns the deliveries (clock, bytes) of all streams."""
+    from sched import Scheduler
+    from shim import Installed
+    sch = Scheduler(seed=seed, mode=mode, max_steps=400000)
+    deliveries = []
+    with Installed(sch, modules=['bandwidth']) as sh:
+        sh.yield_on_release = False
+        from s3transfer.bandwidth import BandwidthLimitedStream, LeakyBucket, TimeUtils
+
+        class VT(TimeUtils):
+            def sleep(self, d):
+                sch.sleep(d)
+        bucket = LeakyBucket(maxrate)
+
+        class Body:
+            def __init__(self):
+                self.left = body_len
+
+            def read(self, n):
+                k = min(n, self.left)
+                self.left -= k
+                return b'x' * k
+
+        class C:
+            exception = None
+
+        def stream(i):
+            def run():
+                for _b in range(n_bodies):
+                    st = BandwidthLimitedStream(Body(), bucket, C(), VT(), bytes_threshold=threshold)
+                    while True:
+                        data = st.read(threshold)
+                        if not data:
+                            break
+                        deliveries.append((sch.clock, len(data), sch.tick()))
+            return run
+
+        def main():
+            ts = [sch.spawn(stream(i), 's%d' % i) for i in range(nstreams)]
+            sch.block_until(lambda: all(t.finished for t in ts), 'join')
+        fail = sch.run(main, timeout=60)
+    return {'deliveries': sorted(deliveries, key=lambda d: d[2]), 'fail': fail}
+
+
 def oracle(seed, tier):
     res = OracleResult('C13')
     rng = rng_for(seed, 'bandwidth-oracle')
@@ -454,6 +501,42 @@ def oracle(seed, tier):
         if sim['refusals']:
             res.nontrivial.add(it)
     res.samples.append(wit)
+    # many small objects: bodies below the read threshold, never closed
+    for it in range(6 if tier == 'quick' else 120):
+        nstreams = rng.randrange(1, 7)
+        maxrate = rng.choice([1 << 16, 100000])
+        threshold = rng.choice([1 << 14, 50000])
+        body_len = rng.choice([threshold // 4, threshold // 2, threshold - 1])
+        n_bodies = rng.randrange(4, 14)
+        sim = simulate_small_bodies(rng.randrange(1 << 30), nstreams, maxrate, threshold, body_len, n_bodies)
+        res.evaluations += 1
+        if res.enough():
+            break
+        wit2 = {'streams': nstreams, 'max_bandwidth': maxrate, 'read_threshold': threshold, 'object_bytes': body_len,
+                'objects_per_stream': n_bodies, 'traffic': 'small objects, bodies never closed'}
+        if sim['fail'] is not None:
+            res.violation('limiter-hangs', wit2, repr(sim['fail']))
+            continue
+        d = sim['deliveries']
+        burst = (2 * nstreams + 4) * threshold
+        cum = [0]
+        for x in d:
+            cum.append(cum[-1] + x[1])
+        bad = None
+        for a in range(len(d)):
+            for b in range(a, len(d)):
+                T = d[b][0] - d[a][0]
+                moved = cum[b + 1] - cum[a]
+                if moved > 1.25 * maxrate * T + burst + 1e-6:
+                    bad = (d[a][0], T, moved)
+                    break
+            if bad:
+                break
+        if bad:
+            res.violation('window-bound:small-objects', dict(wit2, window_start=bad[0], T=bad[1], bytes=bad[2], burst=burst),
+                          '%d bytes of small objects delivered in %.4fs, bound 1.25*max*T+burst = %.0f'
+                          % (bad[2], bad[1], 1.25 * maxrate * bad[1] + burst))
+        res.nontrivial.add(('small', it))
     # D5: two scheduled releases at the same clock reading
     d5 = _d5_probe()
     if d5:
